@@ -4,7 +4,7 @@ from pathlib import Path
 
 from vlib import Check
 from checks.tables_common import (table_models, generated, run_tables, value_models, generated_values,
-                                  random_value_histories, run_values)
+                                  random_value_histories, run_values, param_family)
 
 
 def dup_copied_then_added(h):
@@ -35,7 +35,8 @@ def run(tier):
                 "that contains a copy is replayed on real CdnsBlock objects under AddressSanitizer for each of the nine tables "
                 "x {copy, move} construction/assignment x {CdnsBlock, CdnsBlockRead} and for blocks returned by the reader; "
                 "MCBlockValue: items, the six manners of obtaining a CdnsBlockRead, clear/destroy of the source, generic reads on "
-                "the copy (index cursors and the address-event iterator), replayed on real blocks with the serialisation read back; "
+                "the copy (index cursors and the address-event iterator), the block parameters a block is filled under (fullness, hints, "
+                "tick rate) as part of its value, replayed on real CdnsBlockRead and CdnsBlock objects with the serialisation read back; "
                 "distinct = executions")
     chk.assumptions = ["TLC + CommunityModules", "AddressSanitizer/UBSan as the instrument that sees a use of freed storage",
                        "probe hook (CDNS_VERIF) reading the addresses of the table keys"]
@@ -61,6 +62,7 @@ def run(tier):
     vs = generated_values(chk, 4, limit=1500 if tier == "quick" else None)
     rng = random.Random(chk.seed)
     vs += random_value_histories(rng, 300 if tier == "quick" else 4000, 30)
+    vs += param_family()
     if tier == "thorough":
         vs += generated_values(chk, 5, limit=20000)
     m2 = run_values(chk, vs, {"C19"}, label="c19v")
